@@ -186,6 +186,8 @@ def run(chk):
             r1.require(ok_shape, f"{fi.key}|concat-axis|{agg}|{wo}", fi.where(), f"{fi.key}: aggregation={agg!r} must return the column-wise concat (axis=1) of the aggregated series; found {str(o)[:160]}")
             if not ok_shape:
                 continue
+            r2.require(not [x for x in o.get("ops", []) if x not in ("sort_index", "copy")], f"{fi.key}|dispatch:{agg!r}|periods-as-cut|{wo}", fi.where(),
+                       f"{fi.key}: aggregation={agg!r}: the aggregated frame is passed through {o.get('ops')} before it is returned: the period labels / rows are no longer the calendar periods the rows were cut into")
             r3.require(o["predict_calls"] == 1, f"{fi.key}|predict-once|{agg}|{wo}", fi.where(), f"{fi.key}: self._predict must be called exactly once on the data object's frame (called {o['predict_calls']} times)")
             items = o["items"]
             cols = [i.get("column") for i in items]
